@@ -133,6 +133,7 @@ pub fn profile(name: &str) -> Profile {
         "inject" => Profile { name: "inject", backpressure: true, inject: true, max_data: 3000, w_io: 14, w_peer: 30, w_app: 38, w_conn_poll: 18, w_end: 0, ..base },
         "abuse" => Profile { name: "abuse", abuse: true, w_end: 0, max_data: 300, w_app: 12, w_peer: 30, w_conn_poll: 40, w_io: 4, ..base },
         "idle" => Profile { name: "idle", idle: true, legal_peer: true, w_end: 0, max_data: 300, w_app: 50, ..base },
+        "pushidle" => Profile { name: "pushidle", idle: true, pushlimit: true, legal_peer: true, w_end: 0, max_data: 300, w_app: 50, ..base },
         _ => base,
     }
 }
@@ -1319,10 +1320,11 @@ pub fn run_random(d: &mut Driver, rng: &mut Rng, p: &Profile, steps: usize) {
                         let block = resp_block(rng, st);
                         m.push(peer_bytes(wire::headers(sid, &block, false, 0), json!({"t":"HEADERS","sid":sid,"eos":false})));
                         if rng.chance(1, 2) { m.push(json!({"op":"conn_poll"})); }
-                        if let Some(h) = ph { if rng.chance(1, 2) { m.push(json!({"op":"poll_push","h":h})); } }
+                        if let Some(h) = ph { if !p.idle && rng.chance(1, 2) { m.push(json!({"op":"poll_push","h":h})); } }
                     }
                     m.push(json!({"op":"conn_poll"}));
-                    if let Some(h) = ph { m.push(json!({"op":"poll_push","h":h})); m.push(json!({"op":"poll_push","h":h})); }
+                    // (pushidle: the promises stay unpolled, so that handle drops find several of them queued on the request)
+                    if let Some(h) = ph { if !p.idle { m.push(json!({"op":"poll_push","h":h})); m.push(json!({"op":"poll_push","h":h})); } }
                     pv.queue.extend(m);
                     continue;
                 }
